@@ -238,6 +238,9 @@ def run(ctx):
     h = m.func("_facade", "h")
     wiring.shared_mask(ctx, "C02.e", h, "extract_nd_array", 2, 1, ("from_calculate_frequencies",), "h:shared-mask")
     wiring.mask_definition(ctx, "C02.e", m.func("_construction", "extract_nd_array"), "extract_nd_array:mask", rowwise=True)
+    wiring.params_used(ctx, "C02.e", wiring.funcs_of(m, "_facade", "_construction", only={"h", "h2", "h3", "calculate_nd_frequencies", "calculate_nd_bins",
+                       "extract_nd_array", "extract_and_concat_arrays", "extract_weights"})
+                       + [m.cls("HistogramND").methods[x] for x in ("__init__", "from_calculate_frequencies")], "h-chain:options-read")
     wiring.discarded_mask(ctx, "C02.e", m, only=("_facade.h2", "_facade.h3", "_construction.extract_and_concat_arrays"), floor=1)
 
     # ---- C02.f forwarding ---------------------------------------------------------------------------------------------------
